@@ -1404,6 +1404,8 @@ def translate_group(pid, group, report):
                 if ptoks.at(","):
                     ptoks.eat(",")
             rt = rust_ty(ret, fcfg) if ret else None
+            if "ret" in f:
+                rt = f["ret"]       # the model's result type where it differs (e.g. the Option kept before an `unwrap`)
             if f["name"] == "from" and plist:
                 t0 = plist[0][1]
                 key = key + "#" + str(len(t0[1]) if isinstance(t0, tuple) and t0[0] == "tup" else 1)
@@ -1455,7 +1457,9 @@ def run(only=None):
     import rs2lean_spec
     os.makedirs(OUT, exist_ok=True)
     report = {}
-    for pid, group in rs2lean_spec.SPEC.items():
+    for key, group in rs2lean_spec.SPEC.items():
+        # "C05#3d" is a second group of property C05 (its own cfg / extern table), emitted as RsC05_3d.lean
+        pid = key.split("#")[0]
         if only and pid != only:
             continue
         rep = {"translated": [], "failed": []}
@@ -1464,12 +1468,16 @@ def run(only=None):
         except Exception as ex:  # a crash of the translator is a broken tie of that property, not of the others
             rep["failed"].append(f"translator error: {ex!r}")
             text = f"/- translator error: {ex!r} -/\n"
-        path = os.path.join(OUT, f"Rs{pid}.lean")
+        path = os.path.join(OUT, f"Rs{key.replace('#', '_')}.lean")
         old = open(path).read() if os.path.exists(path) else None
         if old != text:
             with open(path, "w") as f:
                 f.write(text)
-        report[pid] = rep
+        if pid in report:
+            report[pid]["translated"] += rep["translated"]
+            report[pid]["failed"] += rep["failed"]
+        else:
+            report[pid] = rep
     return report
 
 
